@@ -88,6 +88,21 @@ def run(ctx):
                 s.count(e)
             hs.append((fmt, evs + gens.PROBE, meta))
         run_histories_fmt(s, hs, ctx)
+        if conformant:
+            # schema-conformant sessions must render in the json format
+            for fmt, evs, meta in hs[:400]:
+                if fmt in ("json", "@default"):
+                    ref = oracles.RefReceiver("json")
+                    for ev in evs:
+                        exp = ref.expect(ev)
+                        if exp["deliver"] is not None and exp["deliver"][0] == "json":
+                            try:
+                                recv.to_json_real(exp["deliver"][1])
+                            except Exception as e:  # noqa
+                                s.fail({"format": fmt, "events": [gens.ev_hex(x) for x in evs]},
+                                       "a completed session of schema-conformant messages cannot be rendered as json (%s)" % type(e).__name__,
+                                       "%s/not-rendered" % s.name)
+                                break
         streams.append(s)
 
     # exploratory: final frame of a run without trailing CR LF (observation O1), vendor-free STX garbage
